@@ -57,6 +57,9 @@ type BucketSet struct {
 	m    map[string]*struct {
 		r       L
 		lastUse time.Time
+		// users is the amount of Take calls waiting for the bucket or
+		// holding a token taken from it.
+		users int
 	}
 }
 
@@ -68,6 +71,7 @@ func NewBucketSet(new_ func() L, reapInterval time.Duration, maxBuckets int) *Bu
 		m: map[string]*struct {
 			r       L
 			lastUse time.Time
+			users   int
 		}{},
 	}
 }
@@ -89,7 +93,9 @@ func (r *BucketSet) take(key string) L {
 		now := time.Now()
 		// Attempt to get rid of stale buckets.
 		for k, v := range r.m {
-			if now.Sub(v.lastUse) > r.ReapInterval {
+			// Buckets with tokens taken are in use no matter how long ago
+			// they were looked up.
+			if v.users == 0 && now.Sub(v.lastUse) > r.ReapInterval {
 				// Drop the bucket, if there happen to be any waiting Take for it.
 				// It will return 'false', but this is fine for us since this
 				// whole 'reaping' process will run only when we are under a
@@ -111,6 +117,7 @@ func (r *BucketSet) take(key string) L {
 		r.m[key] = &struct {
 			r       L
 			lastUse time.Time
+			users   int
 		}{
 			r:       r.New(),
 			lastUse: time.Now(),
@@ -118,8 +125,19 @@ func (r *BucketSet) take(key string) L {
 		bucket = r.m[key]
 	}
 	r.m[key].lastUse = time.Now()
+	bucket.users++
 
 	return bucket.r
+}
+
+// unuse undoes the users accounting done by take.
+func (r *BucketSet) unuse(key string) {
+	r.mLck.Lock()
+	defer r.mLck.Unlock()
+
+	if bucket, ok := r.m[key]; ok && bucket.users > 0 {
+		bucket.users--
+	}
 }
 
 func (r *BucketSet) Take(key string) bool {
@@ -132,7 +150,11 @@ func (r *BucketSet) Take(key string) bool {
 		// Too many live buckets: refuse instead of crashing on a nil limiter.
 		return false
 	}
-	return bucket.Take()
+	if !bucket.Take() {
+		r.unuse(key)
+		return false
+	}
+	return true
 }
 
 func (r *BucketSet) Release(key string) {
@@ -148,6 +170,9 @@ func (r *BucketSet) Release(key string) {
 		return
 	}
 	bucket.r.Release()
+	if bucket.users > 0 {
+		bucket.users--
+	}
 }
 
 func (r *BucketSet) TakeContext(ctx context.Context, key string) error {
@@ -159,5 +184,9 @@ func (r *BucketSet) TakeContext(ctx context.Context, key string) error {
 	if bucket == nil {
 		return errTooManyBuckets
 	}
-	return bucket.TakeContext(ctx)
+	if err := bucket.TakeContext(ctx); err != nil {
+		r.unuse(key)
+		return err
+	}
+	return nil
 }
